@@ -30,7 +30,7 @@ import (
 type pres struct {
 	class string // ok | e | re | parser-panic | panic | timeout
 	ms    []*labels.Matcher
-	reMsg string // message of the regexp syntax error (class re)
+	reMsg string // code of the regexp syntax error (class re): syntax.Error.Code, not the text, which embeds the anchored expression
 	text  string // error text, used only to bucket the branch histogram (never compared)
 }
 
@@ -47,7 +47,7 @@ func guard(f func() ([]*labels.Matcher, error)) pres {
 			var se *syntax.Error
 			switch {
 			case errors.As(err, &se):
-				ch <- pres{class: "re", reMsg: se.Error(), text: err.Error()}
+				ch <- pres{class: "re", reMsg: string(se.Code), text: err.Error()}
 			case strings.Contains(err.Error(), "parser panic"):
 				ch <- pres{class: "parser-panic"}
 			default:
@@ -180,7 +180,7 @@ func coqTables(texts []string, badre []string) string {
 
 // badRegexCandidates finds every value a parser could have derived from the input (a substring of the input or of
 // its rune-sanitised form, taken as is, Go-unquoted, or classic-unescaped by the real ParseMatcher) whose compile
-// fails with one of the observed regexp error messages. A miss here shows up as a model mismatch (a false alarm),
+// fails with one of the observed regexp error codes. A miss here shows up as a model mismatch (a false alarm),
 // never as a hidden disagreement.
 func badRegexCandidates(in string, msgs map[string]bool) []string {
 	if len(msgs) == 0 {
@@ -191,8 +191,11 @@ func badRegexCandidates(in string, msgs map[string]bool) []string {
 		if _, seen := bad[c]; seen {
 			return
 		}
-		_, err := regexp.Compile("^(?:" + c + ")$")
-		if err != nil && msgs[err.Error()] {
+		// every candidate that does not compile is listed, whatever the error says: the message embeds the expression as
+		// the implementation anchors it and even the error CODE depends on the anchoring (an unclosed class swallows the
+		// closing anchor), so an equivalent anchoring (\A(?:v)\z for ^(?:v)$) must not empty this table (false alarm
+		// found by benign round 4). A value that the model does not derive from the input is never looked up.
+		if _, err := regexp.Compile("^(?:" + c + ")$"); err != nil {
 			bad[c] = true
 		}
 	}
